@@ -14,7 +14,7 @@ pub trait LruFlavor: 'static {
     type S: HB;
     const NAME: &'static str;
     fn build<K: SimKey>(cap: usize, hs: &HasherSpec) -> Result<RawLRU<K, TV, Self::E, Self::S>, CacheError>;
-    fn convert<K: SimKey>(_ctor: u8, _n: usize) -> Option<RawLRU<K, TV, Self::E, Self::S>> {
+    fn convert<K: SimKey>(_ctor: u8, _n: usize, _dup: usize) -> Option<RawLRU<K, TV, Self::E, Self::S>> {
         None
     }
 }
@@ -46,10 +46,13 @@ impl LruFlavor for FRs {
         RawLRU::new(cap)
     }
     /// conversions (L8): ctor 1.. build the cache from `n` pairs (k_i, v_{CONV_VAL_BASE+i})
-    fn convert<K: SimKey>(ctor: u8, n: usize) -> Option<RawLRU<K, TV, Self::E, Self::S>> {
+    fn convert<K: SimKey>(ctor: u8, n: usize, dup: usize) -> Option<RawLRU<K, TV, Self::E, Self::S>> {
         use std::collections::{LinkedList, VecDeque};
         let pairs = || -> Vec<(K, TV)> {
-            crate::alloc::harness_scope(|| (1..=n as u32).map(|i| (K::make(i), TV::new(CONV_VAL_BASE + i as u64))).collect())
+            // the last `dup` pairs repeat the keys of the first ones (with values of their own)
+            let first_dup = (n - dup.min(n)) as u32;
+            let ident = move |i: u32| if i > first_dup { i - first_dup } else { i };
+            crate::alloc::harness_scope(|| (1..=n as u32).map(|i| (K::make(ident(i)), TV::new(CONV_VAL_BASE + i as u64))).collect())
         };
         Some(match ctor {
             1 => RawLRU::from(pairs()),
@@ -120,10 +123,10 @@ impl<K: SimKey, F: LruFlavor> LruSubj<K, F> {
         let hs = h.hashers.first().copied().unwrap_or(HasherSpec::IDENTITY);
         let cap = h.sizes[0];
         if h.ctor >= 1 {
-            if let Some(c) = lib!(F::convert::<K>(h.ctor, cap)) {
+            if let Some(c) = lib!(F::convert::<K>(h.ctor, cap, h.sizes.get(1).copied().unwrap_or(0))) {
                 // C17: the same input converted twice (two hash-map instances, i.e. two
                 // RandomState keys) must give the same recency order
-                if let Some(c2) = lib!(F::convert::<K>(h.ctor, cap)) {
+                if let Some(c2) = lib!(F::convert::<K>(h.ctor, cap, h.sizes.get(1).copied().unwrap_or(0))) {
                     let o1: Vec<u32> = c.keys().map(|k| k.raw().0).collect();
                     let o2: Vec<u32> = c2.keys().map(|k| k.raw().0).collect();
                     if o1 != o2 {
